@@ -477,6 +477,14 @@ def _is_term(e: ast.expr) -> bool:
     return False
 
 
+def _pure_builtin_call(c: ast.Call) -> bool:
+    """a call that only reads: a side-effect-free builtin, or a method known to be a pure reader"""
+    n = norm.call_name(c)
+    if isinstance(c.func, ast.Name):
+        return n in ("any", "all", "len", "isinstance", "callable", "bool", "min", "max", "sum", "abs", "int", "float", "str")
+    return n in PURE_METHODS
+
+
 def _gen(n: "Node") -> FrozenSet:
     """Facts established by executing the node itself (A6 transfer of assignments):
        x = <numeric literal>  ->  x == literal          x = <term>      ->  x == term
@@ -516,10 +524,12 @@ def _gen(n: "Node") -> FrozenSet:
                 cond = norm._mk("and", [norm.nnf(norm.Subst(env).visit(norm.clone(c_)), True, None) for c_ in gen.ifs])
                 isd = ("cmp", "is", t, "None") if dflt.value is None else norm.mk_cmp("==", t, norm.U(dflt))
                 return frozenset([norm._mk("or", [isd, cond])])
-        if isinstance(v, (ast.Compare, ast.BoolOp)) or (isinstance(v, ast.UnaryOp) and isinstance(v.op, ast.Not)):
+        if isinstance(v, (ast.Compare, ast.BoolOp)) or (isinstance(v, ast.UnaryOp) and isinstance(v.op, ast.Not)) \
+                or (isinstance(v, ast.Call) and isinstance(v.func, ast.Name) and v.func.id in ("any", "all", "isinstance", "callable", "bool")):
             # x = <condition>: x is a name for the condition until x or one of its operands is stored to
             #   (x -> C)  and  (not x -> not C), as two ordinary disjunction facts
-            if isinstance(a.targets[0], ast.Name) and t not in norm.names_in(v) and not any(isinstance(z, (ast.Call, ast.NamedExpr, ast.Await, ast.Yield, ast.Lambda)) for z in ast.walk(v)):
+            if isinstance(a.targets[0], ast.Name) and t not in norm.names_in(v) and not any(isinstance(z, (ast.NamedExpr, ast.Await, ast.Yield, ast.Lambda)) for z in ast.walk(v)) \
+                    and all(_pure_builtin_call(z) for z in ast.walk(v) if isinstance(z, ast.Call)):
                 C = norm.nnf(v, True, None)
                 return frozenset([norm._mk("or", [("truth", t, False), C]), norm._mk("or", [("truth", t, True), norm.neg(C)])])
         if isinstance(v, ast.Call) and isinstance(v.func, ast.Name) and v.func.id in ("max", "min") and v.args and not v.keywords:
